@@ -217,8 +217,50 @@ def rect_unit():
                 oo = core.prove_zero(tag + '/static:laplace', sp.diff(term, x, 2) + sp.diff(term, y, 2), h, goal_text='static term is harmonic'); oo.pop('cex_raw', None); O.append(oo)
                 for nm, e in (('y=0', term.subs(y, 0)), ('x=0', term.subs(x, 0)), ('x=a', term.subs(x, a))):
                     oo = core.prove_zero('%s/static:edge_%s' % (tag, nm), e, h, goal_text='static term vanishes on the edge %s' % nm); oo.pop('cex_raw', None); O.append(oo)
+    # coefficients: the static series takes the value Ttop on the edge y = b; the transient series is minus the static part at t = 0 (initial condition T = 0)
+    try:
+        for i, p in enumerate(ps):
+            sums = {s_['var']: s_ for s_ in getattr(p.run, 'sums', [])}
+            if 'tempnonhom' not in sums or 'temperature' not in sums: continue
+            st = sp.sympify(sums['tempnonhom']['term']); tr = sp.sympify(sums['temperature']['term'])
+            n0 = sums['tempnonhom']['loops'][0][0]; (na, _), (nb, _) = sums['temperature']['loops'][:2]
+            q_ = sp.Symbol('q_pos', integer=True, positive=True)
+            top = st.subs(y, b).subs(n0, q_)                                   # coefficient(q) sin(q pi x / a)
+            proj = sp.simplify(2 / a * sp.integrate(Tt * sp.sin(q_ * sp.pi * x / a), (x, 0, a)))
+            oo = core.prove_zero('%s/path%d/static:coefficient' % (base, i), top - proj * sp.sin(q_ * sp.pi * x / a), list(p.pc), goal_text='static term on y = b == [(2/a) int_0^a Ttop sin(q pi x/a) dx] sin(q pi x/a): the series takes the value Ttop on the top edge', extra_syms={q_})
+            if oo['status'] == 'refuted': oo['replay'] = RECT_INIT_NATIVE
+            oo.pop('cex_raw', None); O.append(oo)
+            # transient: A_(n,m) sin(kn x) sin(km y) == -(2/b) [int_0^b S_q(y) sin(km y) dy] sin(kn x) with q = 2 n + 1 and S_q(y) sin(kn x) the static term
+            m_ = sp.Symbol('m_pos', integer=True, positive=True); nn = sp.Symbol('n_nn', integer=True, nonnegative=True)
+            stq = st.subs(n0, 2 * nn + 1)
+            Sy = sp.simplify(stq / sp.sin((2 * nn + 1) * sp.pi * x / a))
+            kx = (2 * nn + 1) * sp.pi / a; ky = m_ * sp.pi / b
+            amp = sp.simplify(Sy / sp.sinh(kx * y))                                   # S_q(y) = amp * sinh(kx y)
+            Fy = (kx * sp.cosh(kx * y) * sp.sin(ky * y) - ky * sp.sinh(kx * y) * sp.cos(ky * y)) / (kx ** 2 + ky ** 2)      # antiderivative of sinh(kx y) sin(ky y), certified below
+            cert = alg.is_zero(sp.diff(Fy, y) - sp.sinh(kx * y) * sp.sin(ky * y), list(p.pc))[0] and not amp.has(y)
+            O.append(core.structural('%s/path%d/transient:antiderivative_certified' % (base, i), bool(cert), goal='d/dy [(k cosh(ky) sin(K y) - K sinh(ky) cos(K y))/(k^2 + K^2)] == sinh(k y) sin(K y) and the static term is amp * sinh(k y)', backend='ring-mod-laws(sympy)'))
+            Iy = amp * (Fy.subs(y, b) - Fy.subs(y, 0))
+            want = -(2 / b) * Iy * sp.sin((2 * nn + 1) * sp.pi * x / a) * sp.sin(m_ * sp.pi * y / b)
+            got = tr.subs(t, 0).subs({na: nn, nb: m_})
+            oo = core.prove_zero('%s/path%d/transient:coefficient' % (base, i), got - want, list(p.pc), goal_text='transient term at t = 0 == -(projection of the static term on sin(km y)): the documented initial condition T(x, y, 0) = 0', extra_syms={m_, nn})
+            if oo['status'] == 'refuted': oo['replay'] = RECT_INIT_NATIVE
+            oo.pop('cex_raw', None); O.append(oo)
+    except Exception as e_:
+        O.append(core.Obl(base + '/coefficients', 'open', 'extraction', 0.0, detail=str(e_)[:300]))
     if not ps: O.append(core.Obl(base + '/paths', 'open', 'extraction', 0.0, detail='no returning path'))
     return res
+
+
+RECT_INIT_NATIVE = r"""
+import json, io, contextlib
+import numpy as np
+from exactpack.solvers.heat.rectangle import Rectangle
+out = {}
+for (a_, b_) in ((2.0, 2.0), (3.0, 2.0), (1.0, 2.5)):
+    with contextlib.redirect_stdout(io.StringIO()): s = Rectangle(Nsum=60, a=a_, b=b_, Ttop=1.0)
+    with contextlib.redirect_stdout(io.StringIO()): out['a=%s b=%s' % (a_, b_)] = [float(s([np.array([xx * a_]), np.array([yy * b_])], 1e-4)['temperature'][0]) for (xx, yy) in ((0.5, 0.4), (0.3, 0.6))]
+print(json.dumps({'reproduced': bool(max(abs(q) for v in out.values() for q in v) > 0.02), 'T(x, y, t=1e-4) at interior points (documented initial condition 0)': out}))
+"""
 
 
 RECT_NATIVE = r'''
